@@ -88,6 +88,13 @@ DoTimes2 == /\ launched = {} /\ Cardinality(Ops) >= 2 /\ counter + 2 <= MaxCount
             /\ UNCHANGED <<blocked, done, started>>
             /\ Rec("dotimes", 2, FALSE)
 
+\* wg.DoTimes(ctx, n, op) / Operation.StartGroup(ctx, wg, n) with n <= 0 (a computed size, e.g. a resize
+\* delta): no goroutine is started, so - "account for exactly the goroutines they start" - the counter and
+\* every parked Wait stay as they are, and nothing panics.
+DoTimesNone(n) == /\ n <= 0
+                  /\ UNCHANGED <<counter, blocked, done, started, running, launched>>
+                  /\ Rec("dotimes", n, FALSE)
+
 \* the window between the predicate check and cond.Wait() (yield point
 \* fun.WaitGroup.Wait.before-cond-wait): Wait call w is held there with the mutex,
 \* its context is cancelled, the helper runs, then w is released.  It must return.
@@ -123,6 +130,7 @@ Step == \/ \E n \in {1, 2} : DeadLaunch(n)
         \/ \E n \in {-2, -1, 1, 2} : Add(n)
         \/ \E j \in Ops : Launch(j) \/ Finish(j)
         \/ DoTimes2
+        \/ \E n \in {-1, 0} : DoTimesNone(n)
 
 Next == Len(hist) < Depth /\ ~over /\ Step
 Spec == Init /\ [][Next]_vars
